@@ -403,6 +403,30 @@ def make_lim():
 h_c = make_lim()
 def d24(ds): return ds.Select(lambda e: h_c(e))
 def p24(): return lambda e: h_c(e)
+# a default that is itself a function, its name given to another function afterwards
+def to_gev(x): return x.gev
+def calibrated(pt, scale=to_gev, *, kscale=to_gev): return (scale(pt), kscale(pt))
+def to_gev(x): return x.something_else
+def d26(ds): return ds.Select(lambda e: calibrated(e.v))
+def p26(): return lambda e: calibrated(e.v)
+# a helper whose own body captures something that cannot be sent: refused, or left by name - never pasted half-rewritten
+TABLE5 = {"a": 5}
+K1000 = 1000
+def offset(x): return x.f(TABLE5.get("a"), K1000)
+def d27(ds):
+    K1000 = 7
+    return ds.Select(lambda e: (offset(e), K1000))
+def p27():
+    K1000 = 7
+    return lambda e: (offset(e), K1000)
+# a lambda that a helper returns / hands on, called by keyword, its parameter named like a name in use at the call site
+def adder(n): return lambda x: x.plus(n)
+def d28(ds): return ds.Select(lambda x: adder(x)(x=x.v))
+def p28(): return lambda x: adder(x)(x=x.v)
+def call_with_y(f, v): return f(y=v)
+def plus_one(x): return call_with_y(lambda y: y.one, x)
+def d29(ds): return ds.Select(lambda y: plus_one(y))
+def p29(): return lambda y: plus_one(y)
 # a captured lambda assigned the ordinary way
 add_one = lambda x: x.plus1
 def d25(ds): return ds.Select(lambda e: add_one(e.v))
@@ -426,18 +450,22 @@ def p6(): return lambda e: e.jets.Select(lambda j: two(j, e))
 
 def directed(ctx):
     m = modgen.load(DIRECTED, "c05d")
-    env = {n: getattr(m, n) for n in ("ident", "const", "sh", "addy", "two", "outer", "add3", "deep", "inner_kw", "outer_kw", "add_to_all", "table", "five_plus", "shifted", "corrected", "next_one", "after_deco", "nothing", "plus_1", "plus_1_then_10", "scale2", "inner_s", "outer_s", "helper_k", "h_b", "h_c", "add_one")}
+    env = {n: getattr(m, n) for n in ("ident", "const", "sh", "addy", "two", "outer", "add3", "deep", "inner_kw", "outer_kw", "add_to_all", "table", "five_plus", "shifted", "corrected", "next_one", "after_deco", "nothing", "plus_1", "plus_1_then_10", "scale2", "inner_s", "outer_s", "helper_k", "h_b", "h_c", "add_one", "calibrated", "to_gev", "offset", "adder", "call_with_y", "plus_one")}
     tags = ["bare-parameter", "constant-body", "nested-lambda-shadows-parameter", "argument-captured-by-inner-binder", "reordered-keywords", "helper-calls-helper", "call-in-nested-lambda", "curried-two-deep-lambdas-argument-names-innermost", "two-deep-nested-lambdas-argument-names-innermost",
             "keyword-only-parameter-hides-argument", "default-of-a-lambda-that-stays", "new-name-already-bound-in-scope", "keyword-of-a-call-that-stays", "default-bound-at-definition",
             "bound-method", "functools-wraps-wrapper", "lambda-on-the-decorator-line", "bare-return", "closures-of-one-factory-calling-each-other",
             "free-name-of-inner-helper-vs-outer-helper-parameter", "free-name-of-helper-vs-lambda-parameter", "free-name-of-helper-vs-nested-lambda-parameter",
-            "tuple-default-shadowing-a-global", "tuple-default-global-rebound-later", "tuple-default-from-enclosing-function", "assigned-lambda"]
+            "tuple-default-shadowing-a-global", "tuple-default-global-rebound-later", "tuple-default-from-enclosing-function", "assigned-lambda", "function-default-name-rebound-later",
+            "helper-captures-something-unsendable", "returned-lambda-called-by-keyword", "handed-on-lambda-called-by-keyword"]
     for i, tag in enumerate(tags):
         ctx.case("directed:" + tag, True)
         expected = probe.behaviour(getattr(m, f"p{i}")())
         try:
             s = getattr(m, f"d{i}")(m.DS())
         except ValueError as e:
+            if tag == "helper-captures-something-unsendable":
+                ctx.count("refused-unsendable-capture-of-a-helper")
+                continue
             if tag.startswith("tuple-default") and "Invalid constant type" in str(e):
                 # the value python kept for the default is no transportable literal: refused like a captured variable holding it (C04)
                 ctx.count("refused-non-transportable-default")
